@@ -26,4 +26,13 @@ theorem C17_gen_handlerFromUrl : Generated.handlerFromUrl = some (true, true) :=
     second argument of every `putrequest` call (the model's target is what reaches the request line). -/
 theorem C17_gen_targetForwarded : Generated.targetForwarded = some (true, true) := by decide
 
+/- ===== byte layer (tools/extractors/bytelayer.py) — section added for the byte-level input classes ===== -/
+
+/-- `utils.from_bytes` decodes with the strict UTF-8 codec, one call on the argument itself: the model's
+    `Wire.fromBytes` (`String.fromUTF8?`), for which `C17_decode_exact` holds.  `utf-8-sig` (drops a leading
+    EF BB BF) or an `errors=` handler (replaces / ignores undecodable bytes) is another function. -/
+theorem C17_gen_fromBytesCodec : Generated.fromBytesCodec = some ("utf-8", false) := by decide
+/-- `utils.to_bytes` encodes with the strict UTF-8 codec: the model's `Wire.toBytes` (`String.toUTF8`). -/
+theorem C17_gen_toBytesCodec : Generated.toBytesCodec = some ("utf-8", false) := by decide
+
 end JRV.Props
